@@ -141,13 +141,13 @@ impl<D: Distance<P, f64>> Srch<D> {
             CoverTree::new(data, d).map(Srch::Cov)
         }
     }
-    fn find(&self, q: &P, k: usize) -> Result<Vec<Hit>, Failed> {
+    fn find(&self, q: &P, k: usize) -> Result<Vec<Hit<'_>>, Failed> {
         match self {
             Srch::Lin(s) => s.find(q, k),
             Srch::Cov(s) => s.find(q, k),
         }
     }
-    fn find_radius(&self, q: &P, r: f64) -> Result<Vec<Hit>, Failed> {
+    fn find_radius(&self, q: &P, r: f64) -> Result<Vec<Hit<'_>>, Failed> {
         match self {
             Srch::Lin(s) => s.find_radius(q, r),
             Srch::Cov(s) => s.find_radius(q, r),
